@@ -22,7 +22,7 @@ Inductive expr :=
 | ESliceFrom (e : expr) (n : nat)         (* e[n:] on strings and lists *)
 | ELen (e : expr)
 | EEq (a b : expr)
-| EIn (a b : expr)                        (* substring test (one character) or list membership *)
+| EIn (a b : expr)                        (* substring test or list / tuple membership *)
 | ENot (a : expr)
 | ECond (c a b : expr)                    (* a if c else b *)
 | EList (es : list expr)
@@ -45,7 +45,7 @@ Inductive expr :=
 | EIsInst (e : expr) (classes : list string)   (* isinstance(e, (c1, ...)) for classes among list / tuple / str *)
 | EToList (e : expr)                      (* list(e) of a list or tuple *)
 | EIndex (e : expr) (n : nat)             (* e[n] with a literal n, on lists and tuples *)
-| EMul (a b : expr)                       (* sequence * number, number * number *)
+| EMul (a b : expr)                       (* sequence * number, number * sequence, number * number *)
 | ENestLevel (e : expr).                  (* utils.get_nesting_level(e) (its source is shape-checked by translate/Merge.py) *)
 
 Inductive stmt :=
@@ -84,6 +84,8 @@ Fixpoint val_eqb (a b : val) : bool :=
   | VS x, VS y => String.eqb x y
   | VB x, VB y => Bool.eqb x y
   | VN x, VN y => Nat.eqb x y
+  | VB x, VN y => Nat.eqb (if x then 1 else 0) y        (* Python: bool is a subclass of int, True == 1 and False == 0 *)
+  | VN x, VB y => Nat.eqb x (if y then 1 else 0)
   | VNone, VNone => true
   | VL xs, VL ys => (fix eq l1 l2 := match l1, l2 with
                                      | [], [] => true
@@ -95,6 +97,10 @@ Fixpoint val_eqb (a b : val) : bool :=
                                      | _, _ => false end) xs ys
   | _, _ => false
   end.
+
+(* x in s on strings: x occurs in s as a substring (every string contains the empty string) *)
+Fixpoint contains (x s : string) : bool :=
+  prefixb x s || match s with EmptyString => false | String _ r => contains x r end.
 
 Definition head_char (s : string) : ascii := match s with String a _ => a | EmptyString => "000"%char end.
 Definition as_str (v : val) : option string := match v with VS s => Some s | _ => None end.
@@ -110,6 +116,8 @@ Definition type_name (v : val) : string :=
 (* python `l * n` *)
 Fixpoint rep_list {A} (l : list A) (n : nat) : list A :=
   match n with O => [] | S k => (l ++ rep_list l k)%list end.
+Fixpoint rep_str (s : string) (n : nat) : string :=
+  match n with O => "" | S k => s ++ rep_str s k end.
 (* utils.get_nesting_level *)
 Fixpoint nest_level (v : val) : nat :=
   match v with
@@ -175,6 +183,7 @@ Fixpoint eval (r : env) (e : expr) {struct e} : res val :=
   | ESliceFrom a n => match eval r a with
                       | Ok (VS s) => Ok (VS (drop n s))
                       | Ok (VL l) => Ok (VL (skipn n l))
+                      | Ok (VT l) => Ok (VT (skipn n l))
                       | Ok _ => rerr | Err x => Err x end
   | ELen a => match eval r a with
               | Ok (VS s) => Ok (VN (String.length s))
@@ -183,8 +192,9 @@ Fixpoint eval (r : env) (e : expr) {struct e} : res val :=
               | Ok _ => rerr | Err x => Err x end
   | EEq a b => match eval r a, eval r b with Ok x, Ok y => Ok (VB (val_eqb x y)) | Err x, _ => Err x | _, Err x => Err x end
   | EIn a b => match eval r a, eval r b with
-               | Ok (VS x), Ok (VS s) => Ok (VB (has_char (head_char x) s))
+               | Ok (VS x), Ok (VS s) => Ok (VB (match x with String c EmptyString => has_char c s | _ => contains x s end))
                | Ok x, Ok (VL l) => Ok (VB (existsb (val_eqb x) l))
+               | Ok x, Ok (VT l) => Ok (VB (existsb (val_eqb x) l))
                | Ok _, Ok _ => rerr | Err x, _ => Err x | _, Err x => Err x end
   | ENot a => match eval r a with Ok v => Ok (VB (negb (truthy v))) | Err x => Err x end
   | ECond c a b => match eval r c with Ok v => if truthy v then eval r a else eval r b | Err x => Err x end
@@ -219,6 +229,7 @@ Fixpoint eval (r : env) (e : expr) {struct e} : res val :=
                 | Ok (VN x), Ok (VN y) => Ok (VN (x + y))
                 | Ok (VS x), Ok (VS y) => Ok (VS (x ++ y))
                 | Ok (VL x), Ok (VL y) => Ok (VL (x ++ y))
+                | Ok (VT x), Ok (VT y) => Ok (VT (x ++ y))
                 | Ok _, Ok _ => rerr | Err z, _ => Err z | _, Err z => Err z end
   | ESub a b => match eval r a, eval r b with
                 | Ok (VN x), Ok (VN y) => if Nat.leb y x then Ok (VN (x - y)) else Err (Raise "MiniPyNegativeNumber")
@@ -237,6 +248,10 @@ Fixpoint eval (r : env) (e : expr) {struct e} : res val :=
                 | Ok (VN x), Ok (VN y) => Ok (VN (x * y))
                 | Ok (VL l), Ok (VN n) => Ok (VL (rep_list l n))
                 | Ok (VT l), Ok (VN n) => Ok (VT (rep_list l n))
+                | Ok (VN n), Ok (VL l) => Ok (VL (rep_list l n))
+                | Ok (VN n), Ok (VT l) => Ok (VT (rep_list l n))
+                | Ok (VS s), Ok (VN n) => Ok (VS (rep_str s n))
+                | Ok (VN n), Ok (VS s) => Ok (VS (rep_str s n))
                 | Ok _, Ok _ => rerr | Err z, _ => Err z | _, Err z => Err z end
   | ENestLevel a => match eval r a with Ok v => Ok (VN (nest_level v)) | Err z => Err z end
   end.
